@@ -125,9 +125,13 @@ class DictProxy(dict):
 
         return (validated_key, validated_value)
 
-    def setdefault(self, key: Any, value: Any) -> None:
+    def setdefault(self, key: Any, value: Any = None) -> Any:
         key, value = self._validate(key, value)
-        super().setdefault(key, value)
+        return super().setdefault(key, value)
+
+    def __ior__(self, other: KeyValuePairs) -> "DictProxy":  # type: ignore[override]
+        self.update(other)
+        return self
 
     def __eq__(self, other: Any) -> bool:
         if other is None or not isinstance(other, dict):
